@@ -8,7 +8,7 @@ from typing import Dict, List, Optional, Tuple
 from .. import terms as tm
 from ..interp import Interp
 from ..layout import Layout, LayoutError
-from ..lib import fmt, is_call_to, per_element, sweep
+from ..lib import fmt, indirect_calls, is_call_to, per_element, sweep
 from ..terms import T, const
 from .c07 import FI, TUM, WXYZ, XYZ, Reader, _traj_base
 
@@ -360,7 +360,7 @@ def check(ctx):
            "result: every array of np_arrays is written with np.save as "
            "<name>.npy (binary)" if ok else
            "result arrays do not go through np.save into <name>.npy",
-           key="C06.3:save:arrays")
+           key="C06.3:save:arrays", evidence=not indirect_calls(rs))
     info_v = rl.attrs.get((rl.ret, "info"))
     stats_v = rl.attrs.get((rl.ret, "stats"))
 
@@ -401,7 +401,9 @@ def check(ctx):
                f"result: embedded trajectories use {writer} -> *{ext} -> "
                f"{reader}" if w_ok and r_ok else
                f"embedded trajectory member {ext}: writer/reader pairing "
-               f"deviates", key=f"C06.3:traj:{ext}")
+               f"deviates", key=f"C06.3:traj:{ext}",
+               evidence=not (indirect_calls(rs) if not w_ok else
+                             indirect_calls(rl)))
 
     # a member's payload is the *whole* buffer: rewound to 0 after it was
     # filled and before it is read
@@ -744,10 +746,18 @@ def _bag(ctx, prog):
     quat = [e for e in kwcalls if set(dict(e.data["kwargs"])) ==
             {"w", "x", "y", "z"}]
     ok = False
+    ev_fields = False
     if pos and quat:
         pk, qk = dict(pos[0].data["kwargs"]), dict(quat[0].data["kwargs"])
         pe = [pk[k] for k in "xyz"]
         qe = [qk[k] for k in "wxyz"]
+        # a deviation is evident when every field is a plain component of
+        # one of the trajectory's views (and then a wrong one)
+        ev_fields = all(
+            v.op == "sub" and tm.is_const(v.args[1]) and
+            v.args[0].op == "elem" and any(v.args[0].args[0] is w
+                                           for w in views)
+            for v in pe + qe)
         ok = all(v.op == "sub" and tm.is_const(v.args[1], i) and
                  v.args[0].op == "elem" and
                  v.args[0].args[0] is tm.attr(traj, "positions_xyz")
@@ -760,7 +770,8 @@ def _bag(ctx, prog):
            "bag writer: Point(x,y,z) <- positions[0..2], Quaternion(w,x,y,z)"
            " <- quaternion[0..3] (inverse of the reader's [w,x,y,z] list)"
            if ok else "bag writer fills message fields from the wrong "
-                      "components", key="C06.5:bag:fields")
+                      "components", key="C06.5:bag:fields",
+           evidence=ev_fields)
     # C06.6 time split
     ints = [e for e in r.of_kind("call")
             if e.data.get("name") == "builtins.int"]
